@@ -37,9 +37,12 @@ type Case struct {
 	Glob    bool     `json:"glob"`        // pathname expansion is on (the f option is off); the check runs in an empty directory
 	EmptyN0 bool     `json:"empty_name0"` // $0 is the empty string
 	InArith bool     `json:"in_arith"`    // the plain expansion stands inside $(( ... + 0 ))
-	Other   string   `json:"other"`       // value of the variable o used by WP{var}
-	Pid     int      `json:"-"`
-	Name0   string   `json:"name0"`
+	// ArithGlue (with InArith, for $1 $2 and specials written without braces): a digit 0
+	// follows the parameter directly, $(($10+0)) — the name ends after one character
+	ArithGlue bool   `json:"arith_glue,omitempty"`
+	Other     string `json:"other"` // value of the variable o used by WP{var}
+	Pid       int    `json:"-"`
+	Name0     string `json:"name0"`
 }
 
 type Outcome struct {
@@ -211,6 +214,10 @@ func Eval(c *Case, store map[string]string) Outcome {
 			m.err = "unset"
 		case set && len(vals) > 0 && vals[0] != "":
 			n, _ = strconv.Atoi(vals[0])
+		}
+		if c.ArithGlue && m.err == "" {
+			// the digit continues the number the parameter stands for
+			n *= 10
 		}
 		fields = []field{{{Text: strconv.Itoa(n), Quoted: c.DQ}}}
 	} else {
@@ -437,6 +444,9 @@ func (c *Case) Source() string {
 			}
 		}
 		b.WriteByte('}')
+	}
+	if c.InArith && c.ArithGlue {
+		b.WriteString("0")
 	}
 	if c.InArith {
 		b.WriteString("+0))")
